@@ -731,6 +731,9 @@ class SyncState:  # pylint: disable=too-many-instance-attributes, too-many-publi
                     ent = SyncEntry(self, None, (eid, ent_ser))
                     for side in [LOCAL, REMOTE]:
                         path, oid = ent[side].path, ent[side].oid
+                        if oid is None:
+                            # a side without an oid is never indexed (see _change_oid / _change_path)
+                            continue
                         if path not in self._paths[side]:
                             self._paths[side][path] = {}
                         self._paths[side][path][oid] = ent
